@@ -18,9 +18,11 @@ def stages(tier):
         return 5, [("2 steps, all actions", 2, 2, (), None, 1000), ("4 steps: add / disable / enable / fit", 4, 1, TOGGLE_OFF, None, 400),
                    ("3 steps, every mutator, reads of cost / total_error / total_cov in between", 3, 1, READ_MUT_OFF, None, 3500),
                    ("5 steps: fit / fix / release with reads of the results in between", 5, 0, BOOK_OFF, None, 1200),
+                   ("3 steps, every mutator, reads of the bookkeeping flags in between", 3, 1, ("rejects",), None, 1500),
                    ("simulate", 9, 2, ("rejects",), (14, 9), 1500)]
     return 6, [("3 steps, all actions", 3, 2, (), None, 30000), ("4 steps, lean", 4, 2, LEAN_OFF, None, 30000),
                ("6 steps: fit / fix / release with reads of the results in between", 6, 0, BOOK_OFF, None, 30000),
+               ("4 steps, every mutator, reads of the bookkeeping flags in between", 4, 1, ("rejects",), None, 30000),
                ("simulate", 12, 3, ("rejects",), (150, 12), 30000)]
 
 
@@ -49,6 +51,7 @@ def run(tier, seed, faults=(), types=TYPES, prop="C03"):
             for label, depth, ms, off, sim, cap in plan:
                 c = fg.cfg_constants(g, dea, depth, max_sources=ms, off=off, faults=faults,
                                      obs_filter=(("perrs", "result", "pvals") if "fix / release" in label else
+                                                 ("did_fit", "has_errors", "fixed", "limited", "ndf") if "bookkeeping flags" in label else
                                                  ("cost", "total_error", "total_cov") if "reads of" in label else ()))
                 simulate = (sim[0], sim[1], seed + 1) if sim else None
                 raw = cm.run_replay_stage(rep, "GenFCRun", cm.gen_cfg(c), replay_walk, "%s/%s: %s" % (ftype, dea, label), simulate=simulate,
